@@ -26,6 +26,13 @@ pub const NAMES: &[&str] = &[
     // next to siblings that sort between the two forms
     "\u{1c5}a", "\u{1c4}b", "\u{1c8}x", "\u{1c7}y", "\u{1f2}m", "\u{1f1}n", "\u{1cb}",
     "\u{1fb6}", "\u{1f80}", "\u{1f88}", "\u{1f84}", "\u{1ff3}", "\u{1ffc}", "\u{1ff6}", "\u{1fc3}", "\u{1fc6}",
+    // 31 and 25 units of three-byte characters (93 / 75 UTF-8 bytes), pairs that only
+    // to_lowercase() identifies (Kelvin, Ohm, Angstrom signs, capital sharp s, theta symbol),
+    // and supplementary characters that share a leading surrogate
+    "\u{65e5}\u{672c}\u{8a9e}\u{306e}\u{6587}\u{66f8}\u{540d}\u{524d}\u{9577}\u{3044}\u{65e5}\u{672c}\u{8a9e}\u{306e}\u{6587}\u{66f8}\u{540d}\u{524d}\u{9577}\u{3044}\u{65e5}\u{672c}\u{8a9e}\u{306e}\u{6587}\u{66f8}\u{540d}\u{524d}\u{9577}\u{3044}\u{7d42}",
+    "\u{d55c}\u{ae00}\u{d55c}\u{ae00}\u{d55c}\u{ae00}\u{d55c}\u{ae00}\u{d55c}\u{ae00}\u{d55c}\u{ae00}\u{d55c}\u{ae00}\u{d55c}\u{ae00}\u{d55c}\u{ae00}\u{d55c}\u{ae00}\u{d55c}\u{ae00}\u{d55c}\u{ae00}\u{d55c}",
+    "\u{2126}", "\u{3c9}", "\u{3a9}", "\u{212b}", "\u{e5}", "\u{c5}", "\u{1e9e}", "\u{3f4}", "\u{3b8}", "\u{398}",
+    "\u{1F680}", "n\u{1F600}", "n\u{1F680}", "\u{10400}", "\u{10401}",
 ];
 
 /// Invalid names (C09 / C10 refusal classes).
@@ -114,6 +121,10 @@ pub fn respell(rng: &mut Rng, path: &str) -> String {
         Some(n) => n,
         None => return path.to_string(),
     };
+    if names.is_empty() {
+        // spellings of the root itself
+        return (*rng.pick(&["/", "", "//", "/.", ".", "./", "x/..", "/x/..", "./.", "a/b/../..", "/./"])).to_string();
+    }
     let mut s = String::new();
     if rng.chance(3, 4) {
         s.push('/');
